@@ -10847,3 +10847,77 @@ func ruleLimitRefuses(w *World, r *Report) {
 		r.ok("LIMIT-REFUSES", "scope=service,core", "", "no request is read through io.LimitReader")
 	}
 }
+
+// KEYS-OWN-CTX (C18, C19): keys are put on a context of the request's own.
+func ruleKeysOwnCtx(prop string) ruleFn {
+	return func(w *World, r *Report) {
+		r.Rule("KEYS-OWN-CTX", "a Context can serve several requests (the elements of a batch share theirs; concurrent actions and cron ticks are handed sub-contexts of one).  ReadKey and WriteKey are therefore only ever written on a context that the writing function made itself — the result of SubContext / NewContext or a Context it allocated — never on one it was handed: keys that one request presents stay on a shared context for the requests that follow, which then pass gates they have no key for", 1)
+		n := 0
+		for _, fn := range w.Funcs {
+			if !w.IsRulio(fn) || isTestFile(w, fn) || len(fn.Blocks) == 0 {
+				continue
+			}
+			if p := w.RelPkg(fn); strings.HasPrefix(p, "tools") || strings.HasPrefix(p, "examples") {
+				continue
+			}
+			allInstrs(fn, func(in ssa.Instruction) {
+				st, ok := in.(*ssa.Store)
+				if !ok {
+					return
+				}
+				nn, f, base, ok := fieldOf(st.Addr)
+				if !ok || typeKey(nn) != "core.Context" || (f != "ReadKey" && f != "WriteKey") {
+					return
+				}
+				n++
+				key := "fn=" + fname(fn) + " field=" + f
+				own := false
+				foreign := false
+				seen := map[ssa.Value]bool{}
+				var walk func(v ssa.Value)
+				walk = func(v ssa.Value) {
+					if seen[v] {
+						return
+					}
+					seen[v] = true
+					switch x := v.(type) {
+					case *ssa.Alloc:
+						own = true // the Context itself, made here
+					case *ssa.Call:
+						own = true
+					case *ssa.Parameter, *ssa.FreeVar, *ssa.Global:
+						foreign = true
+					case *ssa.Phi:
+						for _, e := range x.Edges {
+							walk(e)
+						}
+					case *ssa.ChangeType:
+						walk(x.X)
+					case *ssa.UnOp:
+						// a pointer variable kept in a slot: whatever was assigned to it
+						if cell, isA := x.X.(*ssa.Alloc); isA && x.Op == token.MUL {
+							for _, ref := range *cell.Referrers() {
+								if s2, isS := ref.(*ssa.Store); isS && s2.Addr == ssa.Value(cell) {
+									walk(s2.Val)
+								}
+							}
+						} else {
+							foreign = true
+						}
+					default:
+						foreign = true
+					}
+				}
+				walk(base)
+				if own && !foreign {
+					r.ok("KEYS-OWN-CTX", key, w.PosOf(in), "written on a context made in this function")
+				} else {
+					r.violation("KEYS-OWN-CTX", key, w.PosOf(in), "a key is written on a context that this function was handed: whoever else works with that context (the other elements of a batch, the next request on it) presents this request's keys")
+				}
+			})
+		}
+		if n == 0 {
+			r.exempt("KEYS-OWN-CTX", "scope=rulio", "", "no store into Context.ReadKey / WriteKey found: shape not recognised, not decided")
+		}
+	}
+}
